@@ -55,6 +55,9 @@ def render(x, style: str = 'plain', inside: bool = False) -> str:
         return f'(for ${x["v"]} in {render(x["s"], style, inside)} return {render(x["b"], style, inside)})'
     if k == 'for2':
         return f'(for ${x["v"]} in {render(x["s"], style, inside)}, ${x["w"]} in {render(x["t"], style, inside)} return {render(x["b"], style, inside)})'
+    if k == 'for3':
+        return (f'(for ${x["v"]} in {render(x["s"], style, inside)}, ${x["w"]} in {render(x["r"], style, inside)}, '
+                f'${x["u"]} in {render(x["t"], style, inside)} return {render(x["b"], style, inside)})')
     if k == 'let':
         return f'(let ${x["v"]} := {render(x["s"], style, inside)} return {render(x["b"], style, inside)})'
     if k == 'some':
